@@ -93,6 +93,47 @@ fn main() {
                 }
             }
         }
+    } else if let Some(rest) = mode.strip_prefix("closein:") {
+        // wait, close stdin, stay silent with stdout open, exit
+        let mut it = rest.split(':');
+        let before: u64 = it.next().and_then(|x| x.parse().ok()).unwrap_or(300);
+        let after: u64 = it.next().and_then(|x| x.parse().ok()).unwrap_or(1500);
+        std::thread::sleep(std::time::Duration::from_millis(before));
+        unsafe { libc::close(0) };
+        std::thread::sleep(std::time::Duration::from_millis(after));
+    } else if mode == "flood" {
+        let buf = [b'f'; 65536];
+        let mut o = std::io::stdout();
+        loop {
+            if o.write_all(&buf).is_err() {
+                break;
+            }
+        }
+    } else if let Some(rest) = mode.strip_prefix("pattern:") {
+        // position-tagged bytes on both streams, interleaved in small chunks
+        let mut it = rest.split(':');
+        let nout: usize = it.next().and_then(|x| x.parse().ok()).unwrap_or(0);
+        let nerr: usize = it.next().and_then(|x| x.parse().ok()).unwrap_or(0);
+        let chunk: usize = it.next().and_then(|x| x.parse().ok()).unwrap_or(1000);
+        let g = |tag: u8, p: usize| tag ^ (p as u8).wrapping_mul(37) ^ ((p >> 8) as u8).wrapping_mul(11);
+        let (mut a, mut b) = (0usize, 0usize);
+        let mut o = std::io::stdout();
+        let mut e = std::io::stderr();
+        while a < nout || b < nerr {
+            if a < nout {
+                let n = chunk.min(nout - a);
+                let v: Vec<u8> = (a..a + n).map(|p| g(0x5a, p)).collect();
+                if o.write_all(&v).is_err() { break; }
+                let _ = o.flush();
+                a += n;
+            }
+            if b < nerr {
+                let n = (chunk / 2 + 1).min(nerr - b);
+                let v: Vec<u8> = (b..b + n).map(|p| g(0xc3, p)).collect();
+                if e.write_all(&v).is_err() { break; }
+                b += n;
+            }
+        }
     } else if let Some(c) = mode.strip_prefix("exit:") {
         std::process::exit(c.parse().unwrap_or(0));
     }
